@@ -102,6 +102,15 @@ def plan(tier: str, seed: int) -> Plan:
     conds.append(_fcond("nest", inner, "filt_nested", T * 2, params={"leaf": "optint"}, prefix=[["child", [["name", "items"]]]], required=True))
     inner2 = ["test", ["rel", [["child", [["name", "xs"]]], ["child", [["filter", ["and", ["test", cat.rel("a")], ["cmp", "!=", cat.rel("a"), cat.abs_("k")]]]]]]]]
     conds.append(_fcond("nest", inner2, "filt_nested", T * 2, params={"leaf": "boolint"}, prefix=[["child", [["name", "items"]]]]))
+    # ... and through the async entry point (the async twins of embedded queries re-root separately)
+    for k, (nm, e, fn, prm, pre) in enumerate([
+            ("nest", inner, "filt_nested", {"leaf": "optint"}, [["child", [["name", "items"]]]]),
+            ("nest", inner2, "filt_nested", {"leaf": "boolint"}, [["child", [["name", "items"]]]]),
+            ("exist", ["test", cat.rel("a")], "filt", {"spine": "objarr", "leaf": "nbi"}, ()),
+            ("cmp", ["cmp", "==", cat.rel("a"), cat.abs_("k")], "filt_prims", {}, [["child", [["name", "xs"]]]]),
+            ("func", cat.FUNCTION_EXPRS[0], "filt", {"spine": "objarr", "leaf": "intstr"}, ())]):
+        c = _fcond(nm + "-async", e, fn, T * 2, params=dict(prm, route="async"), prefix=pre)
+        conds.append(c)
     # filters on spines (objects filtered too, filter after descendant)
     for e, spine in [(["test", cat.rel("a")], "deep"), (["cmp", "==", cat.rel("a"), ["lit", 1]], "nest2"),
                      (["cmp", "<", cat.rel("a"), cat.rel("b")], "objarr"), (["not", ["test", cat.rel("b")]], "objarr")]:
